@@ -74,6 +74,27 @@ Theorem C04_concat_never_obj :
 Proof. exact concat_never_obj. Qed.
 Print Assumptions C04_concat_never_obj.
 
+
+(* F9 (repaired by c4a8f45): whatever a self-rendering child returns -- a str or an HTML object --
+   the accumulated markup stays a str and the returned markup is appended to it byte for byte. *)
+Theorem C04_repr_result_appended_verbatim :
+  forall acc s : str,
+    acc_step acc (CStr s) = Some (CStr (acc ++ s)) /\ acc_step acc (CHtml s) = Some (CStr (acc ++ s)).
+Proof. intros acc s. split; reflexivity. Qed.
+Print Assumptions C04_repr_result_appended_verbatim.
+
+(* ... which the unrepaired step  html_ += r  did not do: an HTML result turned the markup rendered so
+   far into the left operand of HTML.__radd__.  Witness: acc = the text a<b already escaped,
+   r = HTML of <i>. *)
+Theorem C04_unrepaired_accumulation_refuted :
+  exists (acc s : str),
+    option_map str_of (acc_step_unrepaired acc (CHtml s)) <> Some (acc ++ s).
+Proof.
+  exists [97; 38; 108; 116; 59; 98], [60; 105; 62].
+  vm_compute. intros H. discriminate H.
+Qed.
+Print Assumptions C04_unrepaired_accumulation_refuted.
+
 (* non-vacuity.  (a) the children  a<b  and HTML(<i>) under script are both written as is,
    under div the text is escaped and the HTML is not; (b) & + (HTML(&) + <) *)
 Example C04_example_script_div :
